@@ -48,6 +48,8 @@ type Result struct {
 	ListLen map[string]int
 	// Elems: value positions that are elements of lists of composite type (key, response path)
 	Elems []ElemPos
+	// Fields: response path of every field executed (resolver or not; __typename excluded), sorted
+	Fields []string
 }
 
 type ElemPos struct {
@@ -108,6 +110,7 @@ func Execute(c Config) *Result {
 	}
 	sort.Strings(x.res.Resolvers)
 	sort.Strings(x.res.Dirs)
+	sort.Strings(x.res.Fields)
 	return x.res
 }
 
@@ -278,6 +281,7 @@ func (x *executor) selectionSet(obj *ast.Definition, objKey string, sets []ast.S
 		if fd == nil {
 			panic(fmt.Sprintf("refexec: no field %s on %s", f.Name, obj.Name))
 		}
+		x.res.Fields = append(x.res.Fields, fpath)
 		v, isNull := x.field(obj, objKey, fd, fields, fpath)
 		if isNull && fd.Type.NonNull {
 			objNull = true
